@@ -271,3 +271,57 @@ Fixpoint toks_has_or (ts : list tok) : bool :=
   match ts with [] => false | TOr :: _ => true | _ :: r => toks_has_or r end.
 Definition toks_sem (val : nat -> bool) (ts : list tok) : bool :=
   if toks_has_or ts then existsb (lit_sem val) (toks_lits ts) else forallb (lit_sem val) (toks_lits ts).
+
+(* ------------------------------------------------------------------ token-level rendering of nested expressions
+   fexpr: literals combined by non-empty all_of / any_of, nested at will (not_ only on leaves: it is inside the literal).
+   doc: what the description shows, with the indentation of the itemised form read as structure: a line of tokens, or a
+   list of items, each introduced by "-" and, from the second on, by the relationship word.
+   `single` stands for the length / newline rule of `layout` (any decision function of the operands is allowed); as in
+   `layout`, a composite with a composite operand is never rendered on one line. *)
+Inductive fexpr := FL (l : lit) | FAllN (es : list fexpr) | FAnyN (es : list fexpr).
+Inductive doc := DLine (ts : list tok) | DItems (items : list (option tok * doc)).
+
+Definition fexpr_is_lit (e : fexpr) : bool := match e with FL _ => true | _ => false end.
+Fixpoint fexpr_lits (es : list fexpr) : list lit :=
+  match es with [] => [] | FL l :: r => l :: fexpr_lits r | _ :: r => fexpr_lits r end.
+
+Fixpoint doc_items (rel : tok) (ds : list doc) (first : bool) : list (option tok * doc) :=
+  match ds with
+  | [] => []
+  | d :: r => ((if first then None else Some rel), d) :: doc_items rel r false
+  end.
+
+Fixpoint render (single : list fexpr -> bool) (e : fexpr) : doc :=
+  match e with
+  | FL l => DLine [TLit l]
+  | FAllN es => if forallb fexpr_is_lit es && single es
+                then DLine (single_line_toks TAnd (fexpr_lits es))
+                else DItems (doc_items TAnd (map (render single) es) true)
+  | FAnyN es => if forallb fexpr_is_lit es && single es
+                then DLine (single_line_toks TOr (fexpr_lits es))
+                else DItems (doc_items TOr (map (render single) es) true)
+  end.
+
+Fixpoint fexpr_wf (e : fexpr) : bool :=
+  match e with
+  | FL _ => true
+  | FAllN es | FAnyN es => match es with [] => false | _ => forallb fexpr_wf es end
+  end.
+
+Fixpoint fsem (val : nat -> bool) (e : fexpr) : bool :=
+  match e with
+  | FL l => lit_sem val l
+  | FAllN es => forallb (fsem val) es
+  | FAnyN es => existsb (fsem val) es
+  end.
+
+Definition item_is_or (it : option tok * doc) : bool := match fst it with Some TOr => true | _ => false end.
+
+(* reading a doc back *)
+Fixpoint doc_sem (val : nat -> bool) (d : doc) : bool :=
+  match d with
+  | DLine ts => toks_sem val ts
+  | DItems items => if existsb item_is_or items
+                    then existsb (fun it => doc_sem val (snd it)) items
+                    else forallb (fun it => doc_sem val (snd it)) items
+  end.
